@@ -141,10 +141,10 @@ decodeRune:
 		p.litBs = append(p.litBs, p.bs[p.bsp:p.bsp+uint(w)]...)
 	}
 	p.bsp += uint(w)
+	p.w = w
 	if p.r == utf8.RuneError && w == 1 {
 		p.posErr(p.nextPos(), "invalid UTF-8 encoding")
 	}
-	p.w = w
 	return p.r
 }
 
